@@ -990,6 +990,9 @@ class Database(object):
             if table is None: table = schema.add_table(table_name, entity)
             else: table.add_entity(entity)
 
+        # the tables of all entities exist before the first many-to-many table gets its name
+        for entity in entities:
+            table = schema.tables[entity._table_]
             for attr in entity._new_attrs_:
                 if attr.is_collection:
                     if not isinstance(attr, Set): throw(NotImplementedError)
